@@ -13,6 +13,7 @@ import (
 	"runtime"
 	"runtime/debug"
 	"sort"
+	"strconv"
 	"strings"
 	"sync"
 	rtime "time"
@@ -22,6 +23,7 @@ type Thread struct {
 	id     int
 	name   string
 	wake   chan struct{}
+	token  int // race mode: the hand-off (see race.go)
 	done   bool
 	daemon bool
 	ready  func() bool // nil => always ready
@@ -35,6 +37,7 @@ type Thread struct {
 	selOk     bool
 }
 
+//go:norace
 func (t *Thread) ID() int { return t.id }
 
 type ChoicePt struct {
@@ -60,7 +63,7 @@ type Sched struct {
 	MaxSteps     int
 	Horizon      bool
 	Diverged     string // replay divergence (infrastructure error)
-	chans        map[uintptr]*chanState
+	chans        []*chanState // looked up by address; a slice, because the runtime's map operations are visible to the race detector
 	Log          []string
 	Active       bool
 	frozen       bool
@@ -83,11 +86,12 @@ var epoch = rtime.Unix(1_000_000_000, 0)
 // contents) is scoped to one execution through it, so that no execution inherits objects from an earlier one.
 var execEpoch int64
 
+//go:norace
 func (s *Sched) reset(prefix []int) {
 	execEpoch++
 	logOn := s.LogOn
 	max := s.MaxSteps
-	*s = Sched{prefix: prefix, endCh: make(chan struct{}, 4), MaxSteps: max, chans: map[uintptr]*chanState{}, Active: true,
+	*s = Sched{prefix: prefix, endCh: make(chan struct{}, 4), MaxSteps: max, Active: true,
 		clock: epoch, LogOn: logOn}
 	if s.MaxSteps == 0 {
 		s.MaxSteps = 20000
@@ -99,8 +103,10 @@ type divergence string
 // Freeze ends the explored part of an execution: every later choice takes the default answer and is not a branching
 // point. Harnesses use it for a deterministic epilogue (e.g. restarting a component on the storage the explored part left
 // behind) whose interleavings are not the subject of the check.
+//go:norace
 func Freeze() { S.frozen = true }
 
+//go:norace
 func (s *Sched) choose(n, free int) int {
 	if s.frozen {
 		return 0
@@ -119,6 +125,7 @@ func (s *Sched) choose(n, free int) int {
 }
 
 // Choose is an environment choice point: alternative 0 is the default answer, every other one costs a deviation.
+//go:norace
 func Choose(n int) int {
 	if !S.Active {
 		return 0
@@ -133,6 +140,7 @@ func Choose(n int) int {
 }
 
 // ChooseFree is an environment choice point whose alternatives are all free (part of the enumerated alphabet).
+//go:norace
 func ChooseFree(n int) int {
 	if !S.Active {
 		return 0
@@ -146,6 +154,7 @@ func ChooseFree(n int) int {
 	return S.choose(n, n)
 }
 
+//go:norace
 func (s *Sched) readyList(cur *Thread) ([]*Thread, bool) {
 	var l []*Thread
 	curReady := false
@@ -169,6 +178,7 @@ func (s *Sched) readyList(cur *Thread) ([]*Thread, bool) {
 }
 
 // yield: thread t has published t.ready for its next op; pick who runs next.
+//go:norace
 func (s *Sched) yield(t *Thread) {
 	if s.killed {
 		runtime.Goexit()
@@ -231,11 +241,11 @@ func (s *Sched) yield(t *Thread) {
 		return
 	}
 	s.cur = next
-	next.wake <- struct{}{}
+	next.wakeUp()
 	if t.done {
 		return
 	}
-	<-t.wake
+	t.waitWake()
 	if s.killed {
 		runtime.Goexit()
 	}
@@ -243,6 +253,7 @@ func (s *Sched) yield(t *Thread) {
 }
 
 // finish ends the execution from thread t's context.
+//go:norace
 func (s *Sched) finish(t *Thread) {
 	s.killed = true
 	s.endCh <- struct{}{}
@@ -251,6 +262,7 @@ func (s *Sched) finish(t *Thread) {
 	}
 }
 
+//go:norace
 func (s *Sched) spawn(name string, daemon bool, f func()) *Thread {
 	t := &Thread{id: len(s.threads), name: name, wake: make(chan struct{}, 1), daemon: daemon}
 	if t.name == "" {
@@ -269,7 +281,7 @@ func (s *Sched) spawn(name string, daemon bool, f func()) *Thread {
 	s.wg.Add(1)
 	go func() {
 		defer s.wg.Done()
-		<-t.wake
+		t.waitWake()
 		if s.killed {
 			return
 		}
@@ -302,6 +314,7 @@ func (s *Sched) spawn(name string, daemon bool, f func()) *Thread {
 }
 
 // Go spawns a scheduled thread (the rewriter maps `go f()` to it).
+//go:norace
 func Go(f func()) {
 	if !S.Active {
 		go f()
@@ -314,6 +327,7 @@ func Go(f func()) {
 }
 
 // GoNamed spawns a named harness thread.
+//go:norace
 func GoNamed(name string, f func()) {
 	if S.killed {
 		runtime.Goexit()
@@ -322,6 +336,7 @@ func GoNamed(name string, f func()) {
 }
 
 // GoDaemon spawns an environment thread: offered last, free only when nothing else is ready, ignored by deadlock detection.
+//go:norace
 func GoDaemon(name string, f func()) {
 	if S.killed {
 		runtime.Goexit()
@@ -330,6 +345,7 @@ func GoDaemon(name string, f func()) {
 }
 
 // Point is an explicit scheduling point.
+//go:norace
 func Point() {
 	if !S.Active {
 		return
@@ -341,8 +357,10 @@ func Point() {
 }
 
 // block: current thread waits until pred holds (pred evaluated at scheduling points).
+//go:norace
 func block(pred func() bool) { blockOp("", pred) }
 
+//go:norace
 func blockOp(op string, pred func() bool) {
 	t := S.cur
 	t.op = op
@@ -355,6 +373,7 @@ func blockOp(op string, pred func() bool) {
 }
 
 // where describes where a blocked thread sits: shim operation plus the innermost non-shim functions.
+//go:norace
 func (t *Thread) where() string {
 	fr := runtime.CallersFrames(t.pcs[:t.npcs])
 	var fs []string
@@ -390,6 +409,7 @@ func (t *Thread) where() string {
 }
 
 // Block exposes predicate blocking to harnesses.
+//go:norace
 func Block(pred func() bool) {
 	if !S.Active {
 		if !pred() {
@@ -403,6 +423,7 @@ func Block(pred func() bool) {
 	block(pred)
 }
 
+//go:norace
 func Logf(f string, a ...any) {
 	if !S.LogOn || S.killed {
 		return
@@ -415,9 +436,11 @@ func Logf(f string, a ...any) {
 }
 
 // Killed reports whether the execution is being torn down (harness callbacks must not record then).
+//go:norace
 func Killed() bool { return S.killed }
 
 // CurName returns the running thread's name.
+//go:norace
 func CurName() string {
 	if S.cur == nil {
 		return ""
@@ -426,6 +449,7 @@ func CurName() string {
 }
 
 // LiveThreads returns names of unfinished, non-daemon threads other than the caller.
+//go:norace
 func LiveThreads() []string {
 	var l []string
 	for _, t := range S.threads {
@@ -437,12 +461,13 @@ func LiveThreads() []string {
 }
 
 // Run executes body as thread 0 under the given choice prefix.
+//go:norace
 func Run(prefix []int, body func()) *Sched {
 	S.reset(prefix)
 	s := S
 	t := s.spawn("main", false, body)
 	s.cur = t
-	t.wake <- struct{}{}
+	t.wakeUp()
 	select {
 	case <-s.endCh:
 	case <-rtime.After(60 * rtime.Second):
@@ -453,10 +478,7 @@ func Run(prefix []int, body func()) *Sched {
 	}
 	s.killed = true
 	for _, x := range s.threads {
-		select {
-		case x.wake <- struct{}{}:
-		default:
-		}
+		x.wakeKill()
 	}
 	done := make(chan struct{})
 	go func() { s.wg.Wait(); close(done) }()
@@ -469,10 +491,12 @@ func Run(prefix []int, body func()) *Sched {
 		os.Exit(3)
 	}
 	s.Active = false
+	s.collectRaces()
 	return s
 }
 
 // Choices returns the choice sequence taken by the execution.
+//go:norace
 func (s *Sched) Choices() []int {
 	c := make([]int, len(s.Points))
 	for i, p := range s.Points {
@@ -482,6 +506,7 @@ func (s *Sched) Choices() []int {
 }
 
 // Deviations returns how many non-free alternatives the execution took.
+//go:norace
 func (s *Sched) Deviations() int {
 	n := 0
 	for _, p := range s.Points {
@@ -514,6 +539,7 @@ type Stats struct {
 
 // Explore runs the deviation-bounded DFS. check is called for every execution; owned tells whether this shard
 // owns (counts, judges) it; it returns whether the node's alternatives should be expanded.
+//go:norace
 func Explore(o Opts, body func(), check func(s *Sched, owned bool) bool) Stats {
 	var st Stats
 	if o.Shards <= 0 {
@@ -523,6 +549,12 @@ func Explore(o Opts, body func(), check func(s *Sched, owned bool) bool) Stats {
 		o.ShardDepth = 3 // deeper dealing balances the shards better; the upper levels are re-run by every shard
 		if o.Bound <= 1 {
 			o.ShardDepth = 2
+		}
+	}
+	if RaceMode {
+		// the race pass runs a deterministic prefix of the same depth-first order (see race.go)
+		if n, _ := strconv.ParseInt(os.Getenv("VERIF_RACE_EXECS"), 10, 64); n > 0 && (o.MaxExecs == 0 || o.MaxExecs > n) {
+			o.MaxExecs = n
 		}
 	}
 	var counter int64
@@ -607,6 +639,7 @@ func Explore(o Opts, body func(), check func(s *Sched, owned bool) bool) Stats {
 }
 
 // Verdict classifies the engine-level outcome of an execution ("" = ran to completion).
+//go:norace
 func (s *Sched) Verdict() string {
 	switch {
 	case s.Panic != nil:
@@ -618,6 +651,7 @@ func (s *Sched) Verdict() string {
 }
 
 // DeadlockSig is a schedule-independent signature of a deadlock: the sorted places where the blocked threads wait.
+//go:norace
 func (s *Sched) DeadlockSig() string {
 	l := append([]string(nil), s.BlockedAt...)
 	sort.Strings(l)
@@ -626,6 +660,7 @@ func (s *Sched) DeadlockSig() string {
 
 // AwaitQuiescence blocks the calling (environment) thread until or() holds or every OTHER non-daemon thread is finished or
 // blocked. The caller is not enabled while anything else can run, so it adds no alternatives to the exploration.
+//go:norace
 func AwaitQuiescence(or func() bool) {
 	if !S.Active {
 		return
@@ -658,6 +693,7 @@ func AwaitQuiescence(or func() bool) {
 
 // Quiescent reports whether no non-daemon thread other than the caller is ready (environment threads use it to evaluate
 // oracles that are only meaningful when the program has nothing left to do without the environment).
+//go:norace
 func Quiescent() bool {
 	for _, t := range S.threads {
 		if t == S.cur || t.done || t.daemon {
